@@ -173,14 +173,15 @@ def statusOf : Resp → Nat | .cl => 200 | .stream => 200 | .s204 => 204 | .s304
 /-- the application writes its whole response on the current connection object:
 `set_close_callback(None)`, `write_headers`, [`write`], `finish` → `_finish_request` -/
 def appRespond (r : Request) (st : St) : St :=
-  let st := (St.emit { st with responded := true, c := { st.c with cc := false } } (.respond st.cur))
-  let (disc1, co) := C03.writeHeaders r.req r.sc.resp st.c.disc
-  let st := if st.s.closed then st
-            else st.emit (.resp (statusOf r.sc.resp) co (C03.chunking r.req r.sc.resp) (C03.respHasCL r.sc.resp))
-  let disc := C03.discAfterFinish disc1 st.c.rf
-  let c : Conn := { st.c with wf := true, disc := disc, cc := false, fd := true }
+  let wh := C03.writeHeaders r.req r.sc.resp st.c.disc
+  let wire : List Out :=
+    if st.s.closed then []
+    else [.resp (statusOf r.sc.resp) wh.2 (C03.chunking r.req r.sc.resp) (C03.respHasCL r.sc.resp)]
+  let disc := C03.discAfterFinish wh.1 st.c.rf
   let s := { st.s with hasCb := false }
-  { st with c := c, s := if disc then s.close else s }
+  { st with responded := true, out := (st.out ++ [.respond st.cur]) ++ wire,
+            c := { st.c with wf := true, disc := disc, cc := false, fd := true },
+            s := if disc then s.close else s }
 
 /-- labels of the straight-line pieces of `_server_request_loop` / `_read_message` -/
 inductive Lbl | loopTop | parsed | afterH | body | bodyDone | afterFinish | err400 | excClosed | excQuiet | exit
@@ -207,14 +208,15 @@ def go (cfg : Cfg) : Nat → Lbl → St → St
       | (s, .closed) => go cfg fuel .exit { st with s := s }
     | .parsed =>
       match cfg.req? st.cur with
-      | none => go cfg fuel .exit st           -- unreachable: headers are only parsed for existing requests
+      | none => go cfg fuel .excClosed st      -- unreachable: headers are only parsed for existing requests
       | some r =>
         if r.badTE && !r.req.ver11 && !cfg.nka then go cfg fuel .err400 st   -- raised inside `_can_keep_alive`
         else
-          let st := { st with c := { st.c with disc := !C03.canKeepAlive cfg.nka r.req }, needClose := true }
-          let st := if r.sc.actFin then st else { st with active := some st.cur, responded := false }
-          let st := st.emit (.headers st.cur)
-          let st := if r.sc.cc == .headers then { st with c := { st.c with cc := true } } else st
+          let st := { st with c := { st.c with disc := !C03.canKeepAlive cfg.nka r.req, cc := r.sc.cc == .headers },
+                              needClose := true,
+                              active := if r.sc.actFin then st.active else some st.cur,
+                              responded := if r.sc.actFin then st.responded else false,
+                              out := st.out ++ [.headers st.cur] }
           match r.sc.h with
           | .sync => go cfg fuel .afterH st
           | .async => { st with pc := .awaitH }
@@ -227,7 +229,7 @@ def go (cfg : Cfg) : Nat → Lbl → St → St
           | .raise => go cfg fuel .excQuiet st
     | .afterH =>
       match cfg.req? st.cur with
-      | none => go cfg fuel .exit st
+      | none => go cfg fuel .excClosed st       -- unreachable
       | some r => go cfg fuel .body { st with segs := r.segs }
     | .body =>
       match st.segs with
@@ -255,17 +257,18 @@ def go (cfg : Cfg) : Nat → Lbl → St → St
         | (s, .closed) => go cfg fuel .excClosed { st with s := s }
     | .bodyDone =>
       match cfg.req? st.cur with
-      | none => go cfg fuel .exit st
+      | none => go cfg fuel .excClosed st       -- unreachable
       | some r =>
         let st := { st with c := { st.c with rf := true } }
         if !st.c.wf then
-          let st := St.emit { st with needClose := false } (.finish st.cur)
-          let st := if r.sc.actFin then { st with active := some st.cur, responded := false } else st
-          let st := if r.sc.cc == .finish then { st with c := { st.c with cc := true } } else st
+          let st := { st with needClose := false, out := st.out ++ [.finish st.cur],
+                              active := if r.sc.actFin then some st.cur else st.active,
+                              responded := if r.sc.actFin then false else st.responded,
+                              c := { st.c with cc := st.c.cc || r.sc.cc == .finish } }
           match r.sc.f with
           | .raise => go cfg fuel .excQuiet st
           | .later => go cfg fuel .afterFinish st        -- (the wait is decided in `afterFinish`)
-          | .now => go cfg fuel .afterFinish (if st.responded then st else appRespond r st)
+          | .now => go cfg fuel .afterFinish (appRespond r st)     -- (`responded` implies `wf`, excluded above)
         else go cfg fuel .afterFinish st
     | .afterFinish =>
       if !st.c.fd && !st.s.closed then
@@ -408,21 +411,23 @@ def step (cfg : Cfg) (st : St) (e : Ev) : St :=
 
 def init (cfg : Cfg) : St := go cfg (fuelFor cfg) .loopTop {}
 
-/-- run a whole event list; returns the final state and, per event, the notifications it produced and
-whether the stream is closed afterwards -/
+/-- the state after a whole event list (`out` accumulates every notification) -/
+def exec (cfg : Cfg) (evs : List Ev) : St := evs.foldl (step cfg) (init cfg)
+
+/-- the whole trace of a run -/
+def trace (cfg : Cfg) (evs : List Ev) : List Out := (exec cfg evs).out
+
+/-- for the driver: per event, the notifications it produced and whether the stream is closed afterwards -/
 def runFrom (cfg : Cfg) (st : St) : List Ev → St × List (List Out × Bool)
   | [] => (st, [])
   | e :: es =>
-    let st1 := step cfg { st with out := [] } e
+    let st1 := step cfg st e
     let (stf, rest) := runFrom cfg st1 es
-    (stf, (st1.out, st1.s.closed) :: rest)
+    (stf, (st1.out.drop st.out.length, st1.s.closed) :: rest)
 
 def run (cfg : Cfg) (evs : List Ev) : St × List (List Out × Bool) :=
   let st0 := init cfg
   let (stf, rest) := runFrom cfg st0 evs
   (stf, (st0.out, st0.s.closed) :: rest)
-
-/-- the whole trace of a run (for the theorems) -/
-def trace (cfg : Cfg) (evs : List Ev) : List Out := ((run cfg evs).2.map (·.1)).flatten
 
 end TornadoModel.C05
